@@ -717,10 +717,10 @@ func init() {
 	c13stream := &StreamProp{
 		id: "C13",
 		meta: Meta{Level: "exploration",
-			Rule:        "same typing-history stream as C01 restricted to SemanticTokensInFile on every file state (base, byte prefixes, single-token edits): tokens sorted by start, pairwise non-overlapping, non-empty, of an advertised type, each with a well-formed range of the requested file (position table). Exactness of the structure tokens: a model walk of the AST with the effective schema (M-eff) lists every known attribute name, block type and label with the modifiers of the element and of all enclosing blocks; the attrName/blockType/blockLabel tokens must be exactly those (none for unknown attributes, unknown blocks, surplus labels) and every value token must lie inside the value of a known attribute. Which value tokens appear inside a known value is decided in two places: a call whose name carries a function-name token must carry a literal token on every literal argument of the parameter's type (fixed, variadic, variadic-only signatures), and (part conditional-branches, metamorphic) the tokens inside a branch of a conditional that is the whole value of a known attribute must equal the tokens of that branch written as the value directly. distinct non-trivial = file states with >= 3 token types, keyed by (source, file, mutation).",
+			Rule:        "same typing-history stream as C01 restricted to SemanticTokensInFile on every file state (base, byte prefixes, single-token edits): tokens sorted by start, pairwise non-overlapping, non-empty, of an advertised type, each with a well-formed range of the requested file (position table). Exactness of the structure tokens: a model walk of the AST with the effective schema (M-eff) lists every known attribute name, block type and label with the modifiers of the element and of all enclosing blocks; the attrName/blockType/blockLabel tokens must be exactly those (none for unknown attributes, unknown blocks, surplus labels) and every value token must lie inside the value of a known attribute. Which value tokens appear inside a known value is decided in two places: a call whose name carries a function-name token must carry a literal token on every literal argument of the parameter's type (fixed, variadic, variadic-only signatures), the items of one map literal are treated alike (a literal value token on one item implies one on every item with a literal value of that kind), and (part conditional-branches, metamorphic) the tokens inside a branch of a conditional that is the whole value of a known attribute must equal the tokens of that branch written as the value directly. distinct non-trivial = file states with >= 3 token types, keyed by (source, file, mutation).",
 			Assumptions: []string{"exactness of the token set beyond the C16 markers is not decided by this check"},
 			Floor:       map[string]int{"quick": 50, "thorough": 100}, CaseBudget: 60},
-		oracles:      []Oracle{oracleTokens, oracleTokenStructure, oracleTokenCallArgs},
+		oracles:      []Oracle{oracleTokens, oracleTokenStructure, oracleTokenCallArgs, oracleTokenMapItems},
 		kinds:        []core.QKind{core.QSemTokens},
 		chunks:       map[string]int{"quick": 8, "thorough": 16},
 		nGenQuick:    24,
